@@ -517,7 +517,10 @@ func (vc *VC) globalConstSyms(g *ssa.Global) []string {
 		syms = append(syms, n)
 		if !vc.declared[n] {
 			vc.declare(n, s)
-			if gi.init != nil {
+			if gi.init != nil && len(gi.init.L[k]) > 4096 && !vc.revealed["tables"] {
+				// large profile table: its contents are only revealed on request
+				vc.hiddenTables[globalName(g)] = true
+			} else if gi.init != nil {
 				vc.prelude = append(vc.prelude, fmt.Sprintf("(assert (= %s %s))", n, gi.init.L[k]))
 				// static objects referenced by tables need their heap axioms: added on heap use
 			} else {
@@ -643,14 +646,18 @@ func (vc *VC) globalMapTable(m Val) (func(Val) Val, bool) {
 		n := smtName(fmt.Sprintf("%s!%d", base, k))
 		if !vc.declared[n] {
 			vc.declare(n, arrSort(ks, l.Sort))
-			vc.prelude = append(vc.prelude, fmt.Sprintf("(assert (= %s %s))", n, sm.vals[k]))
+			if len(sm.vals[k]) <= 4096 || vc.revealed["tables"] {
+				vc.prelude = append(vc.prelude, fmt.Sprintf("(assert (= %s %s))", n, sm.vals[k]))
+			}
 		}
 		syms = append(syms, n)
 	}
 	pn := smtName(base + "!present")
 	if !vc.declared[pn] {
 		vc.declare(pn, arrSort(ks, sBool))
-		vc.prelude = append(vc.prelude, fmt.Sprintf("(assert (= %s %s))", pn, sm.pres))
+		if len(sm.pres) <= 4096 || vc.revealed["tables"] {
+			vc.prelude = append(vc.prelude, fmt.Sprintf("(assert (= %s %s))", pn, sm.pres))
+		}
 	}
 	return func(k Val) Val {
 		key := kf(k)
@@ -699,6 +706,10 @@ func (vc *VC) staticAxiomsFor(name string) {
 	vc.tableDone[name] = true
 	ax := vc.w.gt.staticAxioms[name]
 	if len(ax) == 0 {
+		return
+	}
+	if !vc.revealed["tables"] {
+		vc.hiddenTables["static objects of "+name] = true
 		return
 	}
 	vc.statics = append(vc.statics, ax...)
